@@ -18,7 +18,11 @@ template <class R> void wrapped_shards(char const *rname, char const *shardname)
   for (unsigned part = 0; part < nparts; ++part)
   {
     vrt::shard(std::string("uniform_int/") + shardname + "/minstd_rand/" + std::to_string(part),
-               [t, part] { uniform_int_family<eng_minstd, R>(t, all_intervals<base>(), part, nparts); });
+               [t, part] {
+                 if (part == 0)
+                   roundtrip_uniform_int<R>(t, boundary_values<base>());
+                 uniform_int_family<eng_minstd, R>(t, all_intervals<base>(), part, nparts);
+               });
     vrt::shard(std::string("uniform_int/") + shardname + "/mt19937/" + std::to_string(part),
                [t, part] { uniform_int_family<eng_mt, R>(t, all_intervals<base>(), part, nparts); });
   }
